@@ -27,6 +27,7 @@ Record gates (last_n tau : N) (ps : option prove_state) (rq : prove_request)
   g_tau : tau_gate rq tau hs r s l = Ok (inr failed_tau);
   g_reorg_continuous : r <> 0 -> continuous (firstn (N.to_nat r) hs) = Ok true;
   g_tail_continuous : continuous (skipn (N.to_nat (r + s)) hs) = Ok true;
+  g_ends_at_parent : ends_at_parent hs msg_last = Ok true;
   g_last_root : v_root_ok msg_last = true;
   g_mmr : mmr = 0;
   g_total_difficulty : td_gate ps tau msg_last s = Ok true
@@ -45,6 +46,8 @@ Proof.
   - cbn [bind negb].
     destruct (continuous (skipn _ hs)) as [c2| |] eqn:C2; cbn [bind]; try discriminate.
     destruct c2; cbn [negb]; [|discriminate].
+    destruct (ends_at_parent hs msg_last) as [c3| |] eqn:C3; cbn [bind]; try discriminate.
+    destruct c3; cbn [negb]; [|discriminate].
     destruct (v_root_ok msg_last) eqn:LR; cbn [negb]; [|discriminate].
     destruct (N.eqb_spec mmr 3); [discriminate|].
     destruct (N.eqb_spec mmr 0) as [M0|]; cbn [negb]; [|discriminate].
@@ -59,6 +62,8 @@ Proof.
     destruct c1; cbn [negb]; [|discriminate].
     destruct (continuous (skipn _ hs)) as [c2| |] eqn:C2; cbn [bind]; try discriminate.
     destruct c2; cbn [negb]; [|discriminate].
+    destruct (ends_at_parent hs msg_last) as [c3| |] eqn:C3; cbn [bind]; try discriminate.
+    destruct c3; cbn [negb]; [|discriminate].
     destruct (v_root_ok msg_last) eqn:LR; cbn [negb]; [|discriminate].
     destruct (N.eqb_spec mmr 3); [discriminate|].
     destruct (N.eqb_spec mmr 0) as [M0|]; cbn [negb]; [|discriminate].
@@ -266,4 +271,20 @@ Proof.
       destruct kept as [|s k]; [rewrite Hk; reflexivity|]. destruct Hk as [-> Hle]. split; [exact Hle | reflexivity].
     + inversion H; subst. repeat split.
   - inversion H; subst. repeat split.
+Qed.
+
+(* the gate added by the repair of the missing tip link: the last returned header is the parent of the proved header *)
+Lemma ends_at_parent_spec hs ml :
+  ends_at_parent hs ml = Ok true ->
+  match last_hdr hs with
+  | Some p => v_num p + 1 = v_num ml /\ v_id p = v_parent ml
+  | None => hs = []
+  end.
+Proof.
+  unfold ends_at_parent, last_hdr. destruct (rev hs) as [|p tl] eqn:R.
+  - intros _. rewrite <- (rev_involutive hs), R. reflexivity.
+  - destruct (v_num ml <=? v_num p); [discriminate|].
+    unfold is_parent_of, add64, add_chk. destruct (v_num p + 1 <=? U64MAX); cbn [bind]; [|discriminate].
+    intros H. inversion H as [H1]. apply andb_true_iff in H1. destruct H1 as [H1 H3]. apply andb_true_iff in H1. destruct H1 as [H1 _].
+    apply N.eqb_eq in H1, H3. split; assumption.
 Qed.
